@@ -44,6 +44,12 @@ register('C14', 'Hypothesis-generated orders, intervals, rational polynomials an
          'non-negativity, constants, quadratic scaling, translation, straight-segment variant == flat, two-piece corner vs independent graded reference.',
          'closed forms of vlib/slobo.py; corner reference accepted only when two resolutions agree to 1e-8', 'DESIGN.md 3/C14')
 
+register('C01', 'class-stratified Hypothesis pairs (target-driven meshes, histories, leaf/piece) against an independent reference integral',
+         'Each pair is two coexisting leaves of a really bisected mesh (or leaf + estimator piece); bilform on both switches compared with the analytic-in-time / '
+         'graded-Gauss-in-space reference at two resolutions in the metric of the property (1e-7 sqrt(D D)). Sampled, with every branch class of the panel '
+         'splitting a generated class with a measured count.',
+         'vlib/refint.py + vlib/geo.py; domain bound for close disjoint pairs of size ratio > 8 (DESIGN.md 2.1)', 'DESIGN.md 3/C01, 2.1, 2.3')
+
 NOT_YET = {}
 def main():
     props = [json.loads(l)['id'] for l in open(os.path.join(V, 'properties.jsonl'))]
